@@ -276,8 +276,14 @@ impl Request {
         }
 
         let content_length = match self.headers.get_raw(RequestHeader::ContentLength) {
-            Some(v) => unsafe {v.as_bytes()}.into_iter().fold(0, |len, b| 10*len + (*b - b'0') as usize),
-            None    => 0,
+            Some(v) => {
+                let v = unsafe {v.as_bytes()};
+                (!v.is_empty() && v.iter().all(u8::is_ascii_digit)).then_some(())
+                    .ok_or_else(Response::BadRequest)?;
+                v.iter().try_fold(0usize, |len, b| len.checked_mul(10)?.checked_add((*b - b'0') as usize))
+                    .unwrap_or(usize::MAX)
+            }
+            None => 0,
         };
         match content_length {
             0 => (),
